@@ -215,8 +215,7 @@ theorem androidKey_core (env : Prog.Env) (o : AttObj) (h : Bytes) (res : Result)
           · simp at hr
           · split at hr
             · simp at hr
-            · simp only [Prog.run_bind, Prog.run_query] at hr
-              split at hr
+            · split at hr
               · simp only [Prog.run_pure, run_ite] at hr
                 repeat' split at hr
                 all_goals simp at hr
@@ -228,7 +227,7 @@ theorem apple_core (env : Prog.Env) (o : AttObj) (h : Bytes) (res : Result)
     (hr : Prog.run env (verifyApple o h) = some res) :
     ∃ der c rest e, Prog.run env (unmarshalCertificates o.stmt) = .ok ((der, c) :: rest) ∧
       res = ⟨"AnonCA", der :: rest.map (·.1)⟩ ∧ findExt c Generated.Core.oidAppleNonce = some e ∧
-      env.answer (.appleNonce e.value) = .bytes (Spec.sha256 env (o.authData ++ h)) := by
+      KeyDesc.appleNonce e.value = some (Spec.sha256 env (o.authData ++ h)) := by
   unfold verifyApple at hr
   simp only [Prog.run_bind] at hr
   split at hr
@@ -241,11 +240,9 @@ theorem apple_core (env : Prog.Env) (o : AttObj) (h : Bytes) (res : Result)
         split at hr
         · simp at hr
         · rename_i e he
-          simp only [Prog.run_bind] at hr
           split at hr
           · simp at hr
           · rename_i n hn
-            rw [run_askBytes] at hn
             simp only [Prog.run_pure, run_ite] at hr
             split at hr
             · simp at hr
@@ -492,7 +489,7 @@ theorem apple_binding (env : Prog.Env) (o : AttObj) (h : Bytes) (res : Result)
     (hr : Prog.run env (verifyApple o h) = some res) :
     ∃ der rest c e, res.x5c = der :: rest ∧ env.answer (.x509Parse der) = .cert c ∧
       findExt c Generated.Core.oidAppleNonce = some e ∧
-      env.answer (.appleNonce e.value) = .bytes (Spec.sha256 env (o.authData ++ h)) := by
+      KeyDesc.appleNonce e.value = some (Spec.sha256 env (o.authData ++ h)) := by
   obtain ⟨der, c, rest, e, hc, rfl, h1, h2⟩ := apple_core env o h res hr
   exact ⟨der, _, c, e, rfl, certs_parsed env _ _ hc (der, c) (List.mem_cons_self ..), h1, h2⟩
 
@@ -646,7 +643,7 @@ theorem apple_binds_partial (env : Prog.Env) (hi : HashInj env) (o o' : AttObj) 
   obtain ⟨⟨rfl, rfl⟩, -⟩ := ec
   obtain rfl : e = e' := Option.some.inj (he.symm.trans he')
   have := hn.symm.trans hn'
-  simp only [Resp.bytes.injEq] at this
+  simp only [Option.some.injEq] at this
   exact concat_hash_inj _ _ _ _ hl (sha_inj env hi _ _ hd hd' this)
 
 open Spec.Att in
@@ -664,7 +661,7 @@ theorem apple_binds_of_nonce_ne_nil (env : Prog.Env) (hi : HashInj env) (o o' : 
   obtain ⟨⟨rfl, rfl⟩, -⟩ := ec
   obtain rfl : e = e' := Option.some.inj (he.symm.trans he')
   have := hn.symm.trans hn'
-  simp only [Resp.bytes.injEq] at this
+  simp only [Option.some.injEq] at this
   exact apple_binds_partial env hi o o' h h' res res' hs hl (sha_answered_of_ne_nil _ _ hne)
     (sha_answered_of_ne_nil _ _ (this ▸ hne)) hr hr'
 
@@ -758,11 +755,16 @@ def keyBytes (k : Bytes) : Bytes := [0xa4, 0x01, 0x01, 0x03, 0x27, 0x20, 0x06, 0
 def authData (cnt : UInt8) (k : Bytes) : Bytes :=
   zeros 32 ++ [0x41] ++ [0, 0, 0, cnt] ++ zeros 16 ++ [0, 1] ++ [7] ++ keyBytes k
 
+/-- extension value `SEQUENCE { [1] EXPLICIT { OCTET STRING "" } }`: the Apple nonce extension carrying the empty nonce -/
+def appleNonceExt : Bytes := [0x30, 0x04, 0xA1, 0x02, 0x04, 0x00]
+
+theorem appleNonceExt_nonce : KeyDesc.appleNonce appleNonceExt = some [] := by
+  with_unfolding_all rfl
+
 /-- SHA-256 is unavailable (answers `.none`): `Spec.sha256`/`Att.sha256` then yield `[]` for every input -/
 def noShaEnv : Prog.Env := ⟨fun q => match q with
   | .safetyNet _ => .safetyNet ⟨true, true, true, []⟩
-  | .x509Parse _ => .cert ⟨3, false, [], [], [], [], [⟨Generated.Core.oidAppleNonce, false, []⟩], [], .ed (zeros 32)⟩
-  | .appleNonce _ => .bytes []
+  | .x509Parse _ => .cert ⟨3, false, [], [], [], [], [⟨Generated.Core.oidAppleNonce, false, appleNonceExt⟩], [], .ed (zeros 32)⟩
   | _ => .none⟩
 
 theorem noShaEnv_ok : SigBinds noShaEnv ∧ HashInj noShaEnv := by
